@@ -16,6 +16,8 @@ func init() {
 		r.floor("R2", 8)
 		r.floor("R3", 10)
 		r.floor("R4", 6)
+		r.floor("R6", 8)
+		r.floor("R7", 1)
 	}, checkC06)
 }
 
@@ -394,6 +396,86 @@ func checkC06(c *Ctx, r *Report) {
 					r.bad("R3", key, c.instrPos(i), "unchecked type assertion on a looked-up transaction: a colliding exchange of another kind crashes the process")
 				}
 			})
+		}
+	}
+	c.checkStoredExchangeCompletable(r, "R6")
+	importRules(c, r, "C17", map[string]string{"R3": "R7"})
+}
+
+// checkStoredExchangeCompletable: R6 of C06. A transaction the gateway stores
+// when it relays a client request occupies the request's message ID until it
+// completes. It may therefore only be stored for exchanges whose reply from
+// the broker is routed to it: otherwise it sits under that ID until its timer
+// fires and, meanwhile, replaces or shadows an exchange the other side started
+// under the same ID. For every (request type, QoS) for which the MQTT-SN
+// dispatcher stores a transaction, the MQTT dispatcher's case for the broker's
+// reply to that request must interact with a transaction (complete or advance it).
+func (c *Ctx) checkStoredExchangeCompletable(r *Report, rule string) {
+	m, err := c.newGwModel()
+	if err != nil {
+		r.undecided(rule, "gateway-model", "-", err.Error())
+		return
+	}
+	type req struct {
+		name  string
+		cells map[string]aval
+		reply string // MQTT reply type of the broker, "" = the request has no reply
+	}
+	var reqs []req
+	for q := int64(0); q <= 3; q++ {
+		reply := ""
+		switch q {
+		case 1:
+			reply = "*mqtt.PubackPacket"
+		case 2:
+			reply = "*mqtt.PubrecPacket"
+		}
+		reqs = append(reqs, req{fmt.Sprintf("PUBLISH(QoS=%d)", q), map[string]aval{"type:sn": kstr("*packets1.Publish"), "f:packets1.Publish.QOS": kint(q),
+			"f:packets1.Publish.TopicIDType": kint(2)}, reply})
+	}
+	for q := int64(0); q <= 2; q++ {
+		reqs = append(reqs, req{fmt.Sprintf("SUBSCRIBE(QoS=%d)", q), map[string]aval{"type:sn": kstr("*packets1.Subscribe"), "f:packets1.Subscribe.QOS": kint(q),
+			"f:packets1.Subscribe.TopicIDType": kint(2)}, "*mqtt.SubackPacket"})
+	}
+	reqs = append(reqs, req{"UNSUBSCRIBE", map[string]aval{"type:sn": kstr("*packets1.Unsubscribe"), "f:packets1.Unsubscribe.TopicIDType": kint(2)}, "*mqtt.UnsubackPacket"})
+	reqs = append(reqs, req{"PUBREL", map[string]aval{"type:sn": kstr("*packets1.Pubrel")}, "*mqtt.PubcompPacket"})
+	for _, rq := range reqs {
+		cells := map[string]aval{"state": kint(stActive)}
+		for k, v := range rq.cells {
+			cells[k] = v
+		}
+		outs, _ := m.run(m.snDisp, cells)
+		stores := false
+		for _, o := range outs {
+			if hasEventPrefix(o, "store.Store") {
+				stores = true
+			}
+		}
+		key := "gateway:" + rq.name
+		pos := c.pos(m.snDisp.Pos())
+		if len(outs) == 0 {
+			r.undecided(rule, key, pos, "no outcome explored")
+			continue
+		}
+		if !stores {
+			r.ok(rule, key, pos, "relayed without storing a transaction")
+			continue
+		}
+		if rq.reply == "" {
+			r.bad(rule, key, pos, "a transaction is stored under the request's message ID although the broker never replies to this request: it occupies the ID until its retries run out and shadows an exchange the broker starts under the same ID")
+			continue
+		}
+		outs2, _ := m.run(m.mqDisp, map[string]aval{"state": kint(stActive), "type:mq": kstr(rq.reply)})
+		touches := false
+		for _, o := range outs2 {
+			if hasEventPrefix(o, "tx.") || hasEventPrefix(o, "store.Delete") {
+				touches = true
+			}
+		}
+		if touches {
+			r.ok(rule, key, pos, "stored; the broker's "+rq.reply+" is routed to a transaction")
+		} else {
+			r.bad(rule, key, pos, "a transaction is stored under the request's message ID, but the broker's reply ("+rq.reply+") is relayed without consulting the transaction store: the stored transaction never completes, occupies the ID until its retries run out and replaces an exchange the broker started under the same ID")
 		}
 	}
 }
